@@ -123,14 +123,23 @@ def _big_stack():
         try: resource.setrlimit(resource.RLIMIT_STACK, (1 << 30, resource.getrlimit(resource.RLIMIT_STACK)[1]))
         except Exception: pass
 
-def run_lines(exe, lines, per_batch_timeout=600, env=None):
+def _std_stack():
+    """the implementation under test runs with the customary 8 MiB stack: a recursion that is linear in the input (and would exhaust it) must show"""
+    import resource
+    try:
+        hard = resource.getrlimit(resource.RLIMIT_STACK)[1]
+        lim = 8 << 20
+        resource.setrlimit(resource.RLIMIT_STACK, (lim if hard == resource.RLIM_INFINITY or hard >= lim else hard, hard))
+    except Exception: pass
+
+def run_lines(exe, lines, per_batch_timeout=600, env=None, stack="big"):
     """Feed lines to exe (one output line per input line).  A crash or hang is attributed to the
     first case without an output line; the run resumes after it.  The input is fed in chunks of CHUNK lines per process, so that the
     time limit applies to a bounded amount of work (a large thorough-tier case list is not a hang)."""
     if len(lines) > CHUNK:
         out = []
         for k in range(0, len(lines), CHUNK):
-            out.extend(run_lines(exe, lines[k:k + CHUNK], per_batch_timeout, env))
+            out.extend(run_lines(exe, lines[k:k + CHUNK], per_batch_timeout, env, stack))
         return out
     out = []
     i = 0
@@ -144,7 +153,7 @@ def run_lines(exe, lines, per_batch_timeout=600, env=None):
         data = "\n".join(lines[i:]) + "\n"
         try:
             r = subprocess.run(exe if isinstance(exe, list) else [exe], input=data, stdout=subprocess.PIPE, stderr=subprocess.PIPE, text=True,
-                               timeout=per_batch_timeout, env=e, errors="replace", preexec_fn=_big_stack)
+                               timeout=per_batch_timeout, env=e, errors="replace", preexec_fn=(_big_stack if stack == "big" else _std_stack))
             got = r.stdout.split("\n")
             if got and got[-1] == "": got.pop()
             rc, err = r.returncode, r.stderr
@@ -215,7 +224,7 @@ class Runner:
         """returns list of (impl_line, verdict_line)"""
         env = self.run_env()
         if not hasattr(self.prop, "route"):
-            impl = run_lines(self.driver_cmd(self.prop.DRIVER), cases, per_batch_timeout=timeout, env=env)
+            impl = run_lines(self.driver_cmd(self.prop.DRIVER), cases, per_batch_timeout=timeout, env=env, stack="std")
             return list(zip(impl, self._judge_with_model(self.prop.MODEL, cases, impl, timeout)))
         routed = [self.prop.route(c) for c in cases]
         out = [None] * len(cases)
@@ -223,7 +232,7 @@ class Runner:
         for i, (d, m, c) in enumerate(routed): groups.setdefault((d, m), []).append(i)
         for (d, m), idx in groups.items():
             sub = [routed[i][2] for i in idx]
-            impl = run_lines(self.driver_cmd(d), sub, per_batch_timeout=timeout, env=env)
+            impl = run_lines(self.driver_cmd(d), sub, per_batch_timeout=timeout, env=env, stack="std")
             if m is None:
                 verd = [self.prop.judge(c, o) for c, o in zip(sub, impl)]
             else:
